@@ -13,6 +13,7 @@ rep = Report("C01", "conditions of depth <= 2 (quick) / 3 (thorough, sampled) ov
 
 A2 = G.atoms(("x", "y"))
 AI = G.int_atoms()
+AP = G.partial_order_atoms()
 
 
 def conditions():
@@ -38,6 +39,17 @@ def conditions():
     # quantified conditionals over u
     QA = [("cmp", "<", ("attr", "x", "a"), ("attr", "u", "a")), ("cmp", "==", ("attr", "x", "b"), ("attr", "u", "b")),
           ("contains", ("attr", "u", "items"), ("attr", "x", "a")), ("cmp", ">=", ("attr", "x", "a"), ("attr", "u", "a"))]
+    for p in AP:                      # partially ordered values: not (a <= b) is not (a > b)
+        yield p
+        yield ("not", p)
+        yield ("and", ("not", p), A2[0])
+    for q in QA:
+        for atom in (A2[0], A2[2], A2[3]):   # a quantified conditional on either side of a disjunction / conjunction
+            yield ("or", ("exists", "u", q), atom)
+            yield ("or", atom, ("exists", "u", q))
+            yield ("or", ("forall", "u", q), atom)
+            yield ("or", atom, ("forall", "u", q))
+            yield ("not", ("or", ("forall", "u", q), atom))
     for q in QA:
         yield ("exists", "u", q)
         yield ("forall", "u", q)
